@@ -211,7 +211,16 @@ func upgradeDumpBody(r *Run) {
 			// are in progress
 			r.Violation("C16/update-accepted-with-pending-votes", "", "%s from %s: updated although notary-disabled ballots are in progress", target, ds.prefix)
 		case !took && expectOK && !gasFault:
-			r.Violation("C16/valid-update-refused", "", "%s from %s: committee-witnessed update from supported version %d refused: %s", target, ds.prefix, dep, aer.FaultException)
+			// The statement gives necessary conditions ("succeeds only with …"),
+			// and a migration from a recorded state may depend on its environment
+			// (the Alphabet migration wants GAS on the contract and a Netmap to
+			// ask). Only a refusal that names the gate itself — witness or version —
+			// although both are fine is judged.
+			fe := aer.FaultException
+			if strings.Contains(fe, "version") || strings.Contains(fe, "committee") || strings.Contains(fe, "witness") {
+				r.Violation("C16/valid-update-refused", "", "%s from %s: committee-witnessed update from supported version %d refused by the gate: %s", target, ds.prefix, dep, fe)
+			}
+			r.Count("dump_update_refused_for_environmental_reason")
 		}
 		if !took {
 			if gasFault {
